@@ -1,11 +1,11 @@
 """C42 - compilation is deterministic.
 
-Corpus (props/_g2_c42_corpus.py): 19 modules (quick; 30 thorough) stressing ordered emission - many string /
+Corpus (props/_g2_c42_corpus.py): 21 modules (quick; 32 thorough) stressing ordered emission - many string /
 bytes / identifier / int / float / complex / tuple / set / dict constants, fused types, generators and
 coroutines, cdef class hierarchies with vtables, cimports from a .pxd and from libc/cpython, closures and
 class scopes, dataclasses, Python classes with metaclasses, try/match/f-strings, structs/enums/public+api
 declarations (.h and _api.h outputs), pure-Python mode, prange/parallel blocks with many private temporaries,
-three modules with identically spelled extern enum/struct/ctuple declarations, include + tracing,
+three modules with identically spelled extern enum/struct/ctuple declarations, include + tracing, cdef classes (string-source fragments) + tracing,
 (thorough: memoryviews, memoryview prange) - plus a 4-module
 package with mutual cimports.
 
